@@ -23,14 +23,14 @@ CHECKS = {
  "C01": dict(engine="enginesim", category="exploration", design="5.1", timeout=(240, 2400),
    technique="deterministic simulation: seeded scripted-device runs of the three real run loops, lock-step refinement against a reference FlipJump machine at every device call; input stream closed (EOF) at an arbitrary bit",
    text="seeded exploration: every generated image/input is executed by native, fast and featured and must equal the reference machine in the device call sequence, the memory seen at every device call, cause, op count, fault address and final memory. Sampling, not proof; the quantifier over images is covered only by the geometry-biased generator",
-   note="trusted: sim/fjmodel.py (validated against the repo catalogue in setup), CPython 3.12, gcc -O2 build of the working-tree _fjcore.c; bounds: <=2000 ops, images of a few hundred dense words inside the w-bit address space"),
+   note="trusted: sim/fjmodel.py (validated against the repo catalogue in setup), CPython 3.12, gcc -O2 build of the working-tree _fjcore.c; bounds: <=2000 ops, images of a few hundred dense words inside the w-bit address space, plus one case in 1500 whose single contiguous run of stored words is a little longer than 2^14/2^16/2^20/2^22 words (2^23 in the thorough tier) with the executed ops lying across that size"),
  "C07": dict(engine="enginesim", category="exploration", design="5.2", timeout=(240, 2400),
    technique="deterministic simulation with a tuning-knob swarm: each seeded case is run under 8-14 storage/ring/measurement/observer configurations of the real engines and compared with the reference machine",
    text="seeded exploration of the knob space (flat window at every segment edge and executed op +-1, forced paged, failed flat allocation, ring lengths, measurement loop, observer on/off) over geometry-biased images (page edges, same cache slot, window straddles, far segments, top of the address space, the w=64 fill constant)",
    note="trusted: reference machine, gcc -O2 build; the MSVC build and 32-bit size_t are not explored"),
  "C19": dict(engine="enginesim", category="exploration", design="5.8", timeout=(300, 2400),
    technique="deterministic simulation: the device is a second party taking turns with the program - a seeded script of in-segment memory reads/writes per device call, executed in lock-step by the reference machine; the real InMemoryScreen/PcIO/KeyboardIO stack driven by generated command-stream programs and compared with a reference decoder",
-   text="seeded exploration of device schedules (which call touches which in-segment address with which value) x engines x storage modes; valid and malformed screen command streams at w in {16,32,64}",
+   text="seeded exploration of device schedules (which call touches which in-segment address with which value) x engines x storage modes; valid and malformed screen command streams at w in {16,32,64}; 40% of the screen cases re-use the device OBJECT of an earlier run (usually of another memory width) that ended on a command boundary",
    note="trusted: reference machine and reference screen decoder; device writes outside segments are out of scope by the statement; pygame is not installed, PcIO is assembled from its real headless components"),
  "C10": dict(engine="storagesim", category="fault_enumeration", design="5.4", timeout=(300, 2400),
    technique="deterministic simulation with fault injection on a simulated disk: the real writer's byte stream is torn at every byte (crash / full disk / kill), blocks are lost, every header/table field is corrupted from a value table, payload bits are flipped; the real reader opens every variant",
@@ -50,7 +50,7 @@ CHECKS = {
    note="trusted: gcc ASan/UBSan instrumentation at -O1 is representative of the -O2 build for memory errors; leaks, MSVC and 32-bit size_t are not covered"),
  "C15": dict(engine="debugsim", category="exploration", design="5.9", timeout=(300, 2400),
    technique="deterministic simulation of a two-party schedule: a seeded adaptive user takes turns with the featured loop at the prompt seam; the reference machine is advanced by the debugger protocol (breakpoints, armed step count, continue-all), which fixes the exact op indices of every pause; reads are decoded independently from the model memory",
-   text="seeded exploration of command histories (step, skip N, continue, continue-all, reads of every documented form, help, unknown, empty, quit, EOF, Ctrl-C at the prompt) x breakpoint sets (address, label, substring) x programs; the session must pause exactly at the predicted (count, ip) points, show true values, leave memory untouched and end like the undebugged run on all three engines",
+   text="seeded exploration of command histories (step, skip N, continue, continue-all, reads of every documented form, help, unknown, empty, quit, EOF, Ctrl-C at the prompt) x breakpoint sets (address, label, substring) x programs, one session in eight armed before the run through the handler's own command interface (skip N / step at op 0, half of them with no breakpoint at all) and handed to fjm_run.run; the session must pause exactly at the predicted (count, ip) points, show true values, leave memory untouched and end like the undebugged run on all three engines",
    note="trusted: reference machine; documented variable layout; a pause on an op whose flip word is unreadable may end with that memory error (named relaxation); <=300 ops and <=40 prompts per session"),
  "C18": dict(engine="enginesim", category="fault_enumeration", design="5.7", timeout=(300, 2400),
    technique="deterministic simulation with fault injection: the scripted device fails at every IO call index of each sampled run (library IO error, EOF, foreign exception, KeyboardInterrupt, BaseException, bad __bool__), plus pending-SIGINT injection at chosen bytecode instructions / IO calls; oracle = reference machine stopped at the micro-step",
